@@ -2,6 +2,7 @@ package payment
 
 import (
 	"encoding/json"
+	"errors"
 	"fmt"
 	"github.com/my-cloud/ruthenium/validatornode/application"
 	"net/http"
@@ -27,6 +28,9 @@ func (controller *ProgressController) GetTransactionProgress(writer http.Respons
 	decoder := json.NewDecoder(req.Body)
 	var searchedUtxo *ledger.Utxo
 	err := decoder.Decode(&searchedUtxo)
+	if err == nil && searchedUtxo == nil {
+		err = errors.New("utxo is null")
+	}
 	if err != nil {
 		errorMessage := "failed to decode utxo"
 		controller.logger.Error(fmt.Errorf("%s: %w", errorMessage, err).Error())
@@ -57,7 +61,7 @@ func (controller *ProgressController) GetTransactionProgress(writer http.Respons
 		ValidationTimestamp:   controller.settings.ValidationTimestamp(),
 	}
 	for _, utxo := range utxos {
-		if utxo.TransactionId() == searchedUtxo.TransactionId() && utxo.OutputIndex() == searchedUtxo.OutputIndex() {
+		if utxo != nil && utxo.TransactionId() == searchedUtxo.TransactionId() && utxo.OutputIndex() == searchedUtxo.OutputIndex() {
 			progressInfo.TransactionStatus = "confirmed"
 			response.WriteJson(http.StatusOK, progressInfo)
 			return
@@ -84,7 +88,7 @@ func (controller *ProgressController) GetTransactionProgress(writer http.Respons
 		response.Write(http.StatusInternalServerError, errorMessage)
 		return
 	}
-	if len(blocks) == 0 {
+	if len(blocks) == 0 || blocks[0] == nil {
 		errorMessage := "failed to get last block, get blocks returned an empty list"
 		controller.logger.Error(fmt.Errorf("%s: %w", errorMessage, err).Error())
 		response.Write(http.StatusInternalServerError, errorMessage)
@@ -113,7 +117,7 @@ func (controller *ProgressController) GetTransactionProgress(writer http.Respons
 		return
 	}
 	for _, pendingTransaction := range transactions {
-		if pendingTransaction.Id() == searchedUtxo.TransactionId() {
+		if pendingTransaction != nil && pendingTransaction.Id() == searchedUtxo.TransactionId() {
 			progressInfo.TransactionStatus = "sent"
 			response.WriteJson(http.StatusOK, progressInfo)
 			return
